@@ -1,5 +1,6 @@
 (* Extraction of the C16 models for the correspondence check. ExtrOcamlBasic only. *)
 From V.lib Require Import Base.
+From V.c13 Require Import C13Model.
 From V.c16 Require Import C16Model.
 Require Import ExtrOcamlBasic.
 Separate Extraction
@@ -7,4 +8,5 @@ Separate Extraction
   avc_contains_nalu_type avc_is_idr_sample avc_has_parameter_sets avc_get_parameter_sets
   convert_sample_to_byte_stream
   hevc_find_nalu_types hevc_find_nalu_types_upto hevc_contains_nalu_type
-  hevc_is_rap_sample hevc_is_idr_sample hevc_has_parameter_sets hevc_get_parameter_sets.
+  hevc_is_rap_sample hevc_is_idr_sample hevc_has_parameter_sets hevc_get_parameter_sets
+  hpt_params decode_pic_timing_hevc.
